@@ -79,6 +79,7 @@ type vSim struct {
 	nextID   uint32
 	prefixes map[string][4]uint32 // connection key -> generation, out acked prefix, in received prefix, acks prefix
 	restarts bool
+	redeliveredAfterRestart int
 	nAlloc, nFree, nDeliver, nSend int
 	advisory                       []string
 }
@@ -116,7 +117,11 @@ func (s *vSim) handler(srcId, dstId int) MessageHandler {
 			s.bad = append(s.bad, fmt.Sprintf("message %d (%d->%d) delivered with altered contents: %d bytes submitted, %d delivered", id, srcId, dstId, len(want.payload), len(m)))
 		}
 		s.recv[id]++
-		if s.recv[id] > 1 {
+		if s.recv[id] > 1 && s.restarts {
+			// generation bumps / restarts: the package itself gives up exactly-once there (its own fuzz driver lets prefixes move
+			// backwards and messages be lost in that mode); the property speaks of the mode without restarts. Counted only.
+			s.redeliveredAfterRestart++
+		} else if s.recv[id] > 1 {
 			s.bad = append(s.bad, fmt.Sprintf("message %d (%d->%d, %d bytes) delivered %d times", id, srcId, dstId, len(m), s.recv[id]))
 		}
 	}
@@ -361,6 +366,7 @@ func (s *vSim) quiescent() bool {
 type vRunResult struct {
 	msgs, delivered, steps, rounds int
 	unreleased, advisory           int
+	redelivered                    int
 	advisoryFirst                  string
 	viol                           string
 	class                          string
@@ -369,6 +375,7 @@ type vRunResult struct {
 func vRunOne(cmds []vCmdFull, restarts bool) (res vRunResult) {
 	s, closeAll := vNewSim(restarts)
 	defer closeAll()
+	defer func() { res.redelivered = s.redeliveredAfterRestart }()
 	defer func() {
 		if r := recover(); r != nil {
 			res.viol = fmt.Sprintf("panic: %v", r)
@@ -545,6 +552,7 @@ func TestVerifC36(t *testing.T) {
 		st.counters["sender_buffers_not_yet_released_at_quiescence"] += res.unreleased
 		if restarts {
 			st.counters["runs_with_restarts"]++
+			st.counters["messages_delivered_again_after_a_restart(not_claimed)"] += res.redelivered
 		} else {
 			st.counters["messages_submitted"] += res.msgs
 			st.counters["messages_delivered"] += res.delivered
